@@ -224,7 +224,14 @@ def h_parallel(ctx, case):
     from symx import mpmodel
     nr, nc = case['shape']
     env = Env(ctx)
-    dense = dense_from_bits(ctx, 'x', nr, nc)
+    if case.get('pattern') == 'banded':
+        # large minor axis (worker sub-ranges start at 0, 8, 16, 24: file
+        # names that sort differently as strings): fixed pattern, values
+        # symbolic
+        dense = [[(ctx.real(f"x[{r},{c}]") if (r + c) % 3 != 1 else None)
+                  for c in range(nc)] for r in range(nr)]
+    else:
+        dense = dense_from_bits(ctx, 'x', nr, nc)
     indptr, indices, data = to_csc(dense)
     use_data = ctx.flag('use_data') if case.get('data', 'both') == 'both' \
         else case['data']
@@ -260,6 +267,11 @@ def h_parallel(ctx, case):
     ok = len(oip) == nr + 1
     for r in range(nr):
         if not ok:
+            break
+        if oip[r + 1] - oip[r] != sum(1 for c in range(nc)
+                                      if dense[r][c] is not None):
+            ctx.check(False, 'every major slice has as many entries as '
+                      'the matrix stores for it')
             break
         cols = [c for c in range(nc) if dense[r][c] is not None]
         seg = oix[oip[r]:oip[r + 1]]
@@ -301,6 +313,19 @@ def h_copy_layer(ctx, case):
                      dense_chunks=ch)
     else:
         write_h5ad_x(env, src, dense, enc, layer='layers/raw')
+        if ctx.flag('chunked'):
+            # HDF5-chunked sparse arrays (what a compressed h5ad has);
+            # lengths need not be multiples of the chunk length
+            ch = 1 + ctx.choice('chunk_len', 2)
+            with env.File(src, 'a') as f:
+                g = f['layers/raw']
+                for el in ('indptr', 'indices', 'data'):
+                    d = g[el][()]
+                    dt = g[el].dtype
+                    if len(d) >= ch:
+                        del g[el]
+                        g.create_dataset(el, data=d, chunks=(ch,),
+                                         dtype=dt)
     dst = env.path('dst.h5ad')
     with env.File(dst, 'w') as f:
         f.create_group('obs')
@@ -451,7 +476,9 @@ HARNESSES = [
             split=64),
     Harness('transpose_parallel', h_parallel, setup=setup_par,
             cases=[{'shape': [2, 2]}, {'shape': [3, 2], 'data': True},
-                   {'shape': [4, 1], 'data': False, 'max_proc': 4}],
+                   {'shape': [4, 1], 'data': False, 'max_proc': 4},
+                   {'shape': [30, 2], 'data': True, 'max_proc': 4,
+                    'pattern': 'banded'}],
             thorough_cases=[{'shape': [2, 2], 'K': 2}, {'shape': [3, 2]},
                             {'shape': [2, 3]},
                             {'shape': [4, 1], 'max_proc': 4},
